@@ -334,10 +334,11 @@ var carriers = map[string]bool{"prim:int": true, "prim:string": true}
 
 // implied maps a feature to the features it cannot be shown without.
 var implied = map[string][]string{
-	"reuse":          {"struct"},
-	"st:minmaxitems": {"slice"},
-	"st:unique":      {"slice"},
-	"nameless":       {"omitempty"},
+	"reuse":           {"struct"},
+	"st:minmaxitems":  {"slice"},
+	"st:unique":       {"slice"},
+	"nameless":        {"omitempty"},
+	"string-opt-noop": {"slice"},
 }
 
 // chainFeatures returns the features of the type chain of one field, down to (not into) a nested struct.
